@@ -4,8 +4,11 @@
 //verif:obligation C02.c wrappedSampledConn.Read: the 3 peeked bytes are delivered first, in order, never skipped or duplicated, for every split into reads of any size (including 0), then the underlying reader is used and never before
 //verif:bound bytesPeeked 0..3 as pre-state, read buffers 0..5 bytes, two consecutive reads
 //verif:stub underlying connection = harness stub counting Read calls
-//verif:outside WriteTo / SyscallConn fallbacks of the embedded TCP connection, real sockets
+//verif:obligation C02.c' reading the sampled connection through io.Copy (which prefers the connection's io.WriterTo): for every number 0..3 of peeked bytes already consumed, the copy delivers the remaining peeked bytes first and then the wire - nothing is skipped
+//verif:outside the SyscallConn fallback of the embedded TCP connection (documented as a footgun in the source), real sockets
 package sampledconn
+
+import "io"
 
 type vC02under struct {
 	ManetTCPConnInterface
@@ -49,5 +52,38 @@ func VerifC02cSampledRead() {
 			vCover("underlying")
 			vAssert(n == len(b) && u.reads > 0, "after-the-peeked-bytes-the-connection-is-read")
 		}
+	}
+}
+
+// ---- the other way to read a connection: io.Copy / io.WriterTo ----
+
+func (u *vC02under) WriteTo(w io.Writer) (int64, error) {
+	n, err := w.Write([]byte{0xEE, 0xEE, 0xEE, 0xEE}) // what is left on the wire
+	return int64(n), err
+}
+
+type vC02sink struct{ got []byte }
+
+func (s *vC02sink) Write(b []byte) (int, error) { s.got = append(s.got, b...); return len(b), nil }
+
+func VerifC02cSampledCopy() {
+	u := &vC02under{}
+	sc := &wrappedSampledConn{ManetTCPConnInterface: u}
+	for i := range sc.peekedBytes {
+		sc.peekedBytes[i] = vUint8()
+	}
+	peeked := sc.peekedBytes
+	start := vCase(4) // bytes already consumed through Read
+	sc.bytesPeeked = uint8(start)
+	sink := &vC02sink{}
+	n, err := io.Copy(sink, sc) // uses the connection's WriterTo if it has one, Read otherwise
+	vAssert(err == nil, "copy succeeds")
+	want := 3 - start + 4
+	vAssert(int(n) == want && len(sink.got) == want, "a copy out of the connection delivers every byte not yet read: the rest of the peeked bytes and then the wire")
+	for i := 0; i < 3-start && i < len(sink.got); i++ {
+		vAssert(sink.got[i] == peeked[start+i], "the peeked bytes are not skipped by a copy")
+	}
+	for i := 3 - start; i < len(sink.got); i++ {
+		vAssert(sink.got[i] == 0xEE, "then the bytes from the wire follow")
 	}
 }
